@@ -25,6 +25,11 @@ STR_PLAIN = ["P21/c", "x=y", "0x10", "-", "abc", "Fm-3m", "1,5", "True", "None",
 STR_NUMERIC = ["12", "007", "+5", "5.", "1e5", "1_0", "inf", "1e400", "-0", "-0.0", ".5", "1E-3",
                "-12", "0", "3.25", "Infinity", "-inf", "1e22", "9007199254740993", "0.1",
                "1" + "0" * 320, "-" + "9" * 400]
+# space-free strings that look like ENCODINGS of separators: exactly what an escaping / quoting layer (added later by
+# somebody) gets wrong; a uniform sampler would need ~1e-6 luck per character to produce one
+STR_ESCAPES = ["my%20data", "%20", "a%0Ab", "50%", "%s_%d", "%%", "a\\nb", "a\\tb", "\\x20", "\\u0020", "a\\\\b", "&nbsp;",
+               "a&amp;b", "a+b", "${HOME}", "$x", "~", "a;b", "a#b", "#", "'q'", '"q"', "a,b", "a:b", "[1]", "{x}", "a|b",
+               "a*b", "a?b", "a=b=c", "<x>", "`x`", "a\\", "!", "@file", "\\"]
 FLOAT_SPECIAL = [-0.0, 0.0, 5.0, 1e22, 5e-324, float("inf"), float("-inf"), 1.0 / 3.0, 1e-7,
                  123456789.123, 2.2250738585072014e-308, 1.7976931348623157e308, -1.5, 1e16, 0.1]
 BUFSIZES = [1, 2, 7, 16, 64, 512, 8192]
@@ -115,7 +120,7 @@ def gen_value(rng, allow_numeric_str=True):
     if k == "fspecial":
         return rng.choice(FLOAT_SPECIAL)
     if k == "str":
-        return rng.choice(STR_PLAIN)
+        return rng.choice(STR_ESCAPES) if rng.chance(0.3) else rng.choice(STR_PLAIN)
     return rng.choice(STR_NUMERIC)
 
 
@@ -546,6 +551,9 @@ def make_os_seams(disk):
 
     real.update({"open": os.open, "close": os.close, "write": os.write, "read": os.read, "fstat": os.fstat,
                  "ftruncate": os.ftruncate, "lseek": os.lseek})
+    for _n in ("pwrite", "pread", "posix_fallocate", "posix_fadvise"):
+        if hasattr(os, _n):
+            real[_n] = getattr(os, _n)
 
     def fds():
         if not hasattr(disk, "fds"):
@@ -615,6 +623,53 @@ def make_os_seams(disk):
         r = fds().get(fd) if isinstance(fd, int) else None
         return r.seek(pos, how) if r is not None else real["lseek"](fd, pos, how)
 
+    def os_pwrite(fd, data, offset):
+        r = fds().get(fd) if isinstance(fd, int) else None
+        if r is None:
+            return real["pwrite"](fd, data, offset)
+        keep = r.pos
+        r.pos = offset
+        try:
+            return r.write(data)
+        finally:
+            r.pos = keep
+
+    def os_pread(fd, n, offset):
+        r = fds().get(fd) if isinstance(fd, int) else None
+        if r is None:
+            return real["pread"](fd, n, offset)
+        keep = r.pos
+        r.pos = offset
+        try:
+            b = bytearray(n)
+            k_ = r.readinto(b)
+            return bytes(b[:k_])
+        finally:
+            r.pos = keep
+
+    def os_fallocate(fd, offset, length):
+        r = fds().get(fd) if isinstance(fd, int) else None
+        if r is None:
+            return real["posix_fallocate"](fd, offset, length)
+        need = offset + length - len(r.buf)
+        if need > 0:
+            if disk.capacity is not None and disk.used() + need > disk.capacity:
+                disk.fire("enospc")
+                disk.unrecoverable = True
+                raise _sim_oserror(OSError, errno.ENOSPC, "simulated ENOSPC")
+            r.buf.extend(b"\0" * need)
+
+    def os_fadvise(fd, *a):
+        r = fds().get(fd) if isinstance(fd, int) else None
+        return None if r is not None else real["posix_fadvise"](fd, *a)
+
+    extra = {}
+    if "pwrite" in real:
+        extra.update({"pwrite": os_pwrite, "pread": os_pread})
+    if "posix_fallocate" in real:
+        extra["posix_fallocate"] = os_fallocate
+    if "posix_fadvise" in real:
+        extra["posix_fadvise"] = os_fadvise
     out = {"open": os_open, "close": os_close, "write": os_write, "read": os_read, "fstat": os_fstat,
            "ftruncate": os_ftruncate, "lseek": os_lseek,
            "exists": exists, "isfile": isfile, "getsize": getsize, "remove": remove, "unlink": remove,
@@ -623,6 +678,7 @@ def make_os_seams(disk):
            "lexists": exists, "fsync": fsync_like("fsync"), "fdatasync": fsync_like("fdatasync")}
     if "chown" in real:
         out["chown"] = noop_on_file("chown")
+    out.update(extra)
     return real, out
 
 
@@ -685,7 +741,7 @@ def generate(rng, tier, index):
     names = sorted(rng.sample(NAMES, rng.between(1, 8)))
     numstr = rng.chance(0.7)
     cfg = {"logging": rng.weighted([("quiet", 5), ("default", 2), ("debug", 3)]), "clock": core.gen_clock(rng),
-           "checks_off": rng.chance(0.25), "kwcalls": rng.chance(0.25), "bufsize": rng.choice(BUFSIZES), "chunk": rng.choice([1, 8, 64, 8192, 8192]),
+           "checks_off": rng.chance(0.25), "warnings": core.gen_warn(rng), "kwcalls": rng.chance(0.25), "bufsize": rng.choice(BUFSIZES), "chunk": rng.choice([1, 8, 64, 8192, 8192]),
            "fault_kinds": kinds, "fault_free": fault_free, "names": names}
     # op mix for this run (swarm)
     kinds_ops = ["addpar", "set", "set_parameters", "set_varylist", "set_variable_values",
@@ -958,6 +1014,8 @@ def execute(trace):
         if isinstance(pth, str) and pth.startswith(SIM_PREFIX):
             return sim_open(pth, mode if "b" in mode else mode + "b", 0)
         return real_fileio(file, mode, closefd, opener)
+    warncfg = core.warn_config(cfg.get("warnings", "ignore"))
+    warncfg.__enter__()
     logcfg = core.log_config(cfg.get("logging", "quiet"))
     logcfg.__enter__()
     count("logging." + logcfg.mode)
@@ -1383,6 +1441,7 @@ def execute(trace):
             except AttributeError:
                 pass
         logcfg.__exit__(None, None, None)
+        warncfg.__exit__(None, None, None)
         clock.__exit__(None, None, None)
         if clock.reads:
             count("probe.clock_reads_by_code_under_test", clock.reads)
